@@ -33,7 +33,7 @@ CHECK_DEADLOCK FALSE
 """
 TIERS = {
     "quick": dict(K=3, MaxP=3, MaxN=2, Easy="EasyQuick", Cuts="CutsQuick"),
-    "thorough": dict(K=4, MaxP=3, MaxN=3, Easy="EasyThorough", Cuts="CutsThorough"),
+    "thorough": dict(K=4, MaxP=3, MaxN=2, Easy="EasyThorough", Cuts="CutsThorough"),
 }
 
 
